@@ -120,6 +120,19 @@ CLAIMED = {
              "covered by the per-declaration override relation (which found and led to fixing has_default_args).",
         technique="Coq proof (flag algebra) + regenerated source-scan table (vm_compute) + whole-run relation oracle",
         design="4/C15"),
+    "C16": dict(
+        text="Table theorem by vm_compute over the option-guarded emission sites regenerated from /repo's source on every run "
+             "(python-ast scan, fail closed): every statement guarded by debug / debug_index / doxygen / literalinclude / "
+             "show_splicer_comments (and every else-branch) only appends comment or blank lines, calls a comment producer, sets a "
+             "literalinclude marker field or computes declaration text for a comment; none guards a file write or file-list "
+             "registration; the version stamp is a comment line. Coq theorem (from the Text model): a hint-free comment line stays "
+             "one physical line starting with its leader and does not move the indentation. Search/validation: pairs of real runs "
+             "differing in one option (globally and on single declarations) over corpus entries and a generated library: same "
+             "file set and identical token streams after comment removal.",
+        note="Trusted: Coq kernel, tools/scan_guards.py (syntactic classifier; write_doxygen/document_stmts/gen_decl trusted to be "
+             "comment producers / pure), the comment strippers. A new kind of guarded statement makes the obligation fail (fail closed).",
+        technique="regenerated source-scan table (vm_compute) + Coq Text lemma + comment-stripped run comparison",
+        design="4/C16"),
 }
 
 PENDING = {}
